@@ -61,7 +61,9 @@ def _model_full():
     # two of everything that is iterated: a loop that reads a name left over from an earlier loop handles the last element twice and the others never
     bp = mk("BlockPartition", "bp1", list_of_constraints=[mk("Constraint", "stale_partition_c")])
     bp2 = mk("BlockPartition", "bp2", list_of_constraints=[])
-    m["partitions"] = [bp, bp2]
+    # a partition with one block induces no relation of its own, but it is a registered partition like any other: what the user attached to it is sent
+    bp3 = mk("BlockPartition", "bp3 (one block)", list_of_constraints=[mk("Constraint", "user constraint attached to the one-block partition")], d=1)
+    m["partitions"] = [bp, bp2, bp3]
     return m
 
 
@@ -132,11 +134,12 @@ class _Run:
         if isinstance(recv, SymObj) and recv.kind == "BlockPartition":
             if nm == "add_partition_constraints":
                 self.regen += 1
-                recv.attrs["list_of_constraints"] = [SymObj("Constraint", label="partition_c_gen%d" % self.regen)]
+                if recv.attrs.get("d") != 1:
+                    recv.attrs["list_of_constraints"] = [SymObj("Constraint", label="partition_c_gen%d" % self.regen)]
                 self.trace.append(("add_partition_constraints", recv))
                 return None
             if nm == "get_nb_blocks":
-                return 2
+                return 1 if recv.attrs.get("d") == 1 else 2
         if recv == "self":
             if nm == "get_nb_eigenvalues_and_corrected_matrix":
                 return (self.cfg.get("nb_eig", 3), 0.0, ("corrected", args[0] if args else None))
@@ -321,6 +324,20 @@ def _compute(ctx):
         # ---- drain
         sent_c = [t[1][-1] for t in tr if t[0] == "send_constraint_to_solver"]
         sent_p = [t[1][-1] for t in tr if t[0] == "send_lmi_constraint_to_solver"]
+        # order of the LMIs (for R-LMIORDER): an LMI generated during the solve (a class LMI) sent before one that was declared before the solve
+        def _src_of(o):
+            l0 = o.attrs.get("label", "") if isinstance(o, SymObj) else ""
+            return "class LMIs" if "class_lmi" in l0 else ("LMIs declared on the problem" if any(o is x for x in m["psd"]) else
+                                                           ("LMIs declared on a function" if "own_lmi" in l0 else "other"))
+        if not cfg.get("nofunc") and not cfg["heur"]:
+            seq = [_src_of(o) for o in sent_p]
+            inv = getattr(ctx, "_lmi_inversions", None)
+            if inv is None:
+                inv = ctx._lmi_inversions = set()
+            for i0, a0 in enumerate(seq):
+                for b0 in seq[i0 + 1:]:
+                    if a0 == "class LMIs" and b0.startswith("LMIs declared"):
+                        inv.add((a0, b0))
         obj = it.env.get("self.objective")
         metric_ok = len(run.metric_cons) == 2 and all(c.attrs["lhs"] is obj and c.attrs["op"] in ("LtE",) and c.attrs["rhs"] is mm for c, mm in zip(run.metric_cons, m["metrics"])) \
             or len(run.metric_cons) == 2 and all(c.attrs["rhs"] is obj and c.attrs["op"] in ("GtE",) and c.attrs["lhs"] is mm for c, mm in zip(run.metric_cons, m["metrics"]))
@@ -346,6 +363,8 @@ def _compute(ctx):
         for b0 in m["partitions"]:
             calls = [k for k, t in enumerate(tr) if t[0] == "add_partition_constraints" and t[1] is b0]
             first_send = min([k for k, t in enumerate(tr) if t[0] in ("send_constraint_to_solver", "send_lmi_constraint_to_solver")] or [len(tr)])
+            if b0.attrs.get("d") == 1 and len(calls) <= 1:
+                continue          # nothing to generate for one block: asking or not asking is the same thing
             if len(calls) != 1:
                 fail("drain", "add_partition_constraints is called %d time(s) on a partition during one solve, expected once (model with %d functions)" % (
                     len(calls), len(m["functions"])))
